@@ -214,7 +214,7 @@ theorem mcv_keepsK {env : Env} {g : Nat → Option Val} {s S0 s' : State} {fuel 
         have := fm m (by rw [VF0.flag]; exact hs)
         rw [this] at hd'; cases hd'
     · intro m p i hm hk hd'
-      rw [q.value_eq env m]
+      rw [q.value_eqM env m]
       rcases up_or_same (W := touched n W0) F (VFW.frag F) gr VFW.kind VFW.value m p i hm hk with hu | hs
       · have hu' : UpM (touched n W0) m n :=
           hu.congr VFW.kind VFW.parents
